@@ -1,7 +1,6 @@
 """T1 for the log back-end (C16): LogFile (roll / flush tests, period arithmetic, kRollPerSeconds_),
-FileUtil::AppendFile::append (loop test, short-write test, accumulation), AsyncLogging (front-end space test,
-wait test, overload valve and its erase range, recycle bound, presence of the final collect after the loop),
-FixedBuffer::append's space test and the buffer-size constants.
+FileUtil::AppendFile::append (loop test, short-write test, accumulation), FixedBuffer::append's space test and the
+buffer-size constants.  (AsyncLogging itself: vlib/gen/asynclog.py.)
 
 Everything is read from the clang AST of the current sources; a site whose shape is not the expected
 one raises ExtractError (reported as a broken tie), nothing is guessed.
@@ -77,7 +76,7 @@ def nat_prop(name, params, body, doc):
 
 
 def generate():
-    out = [HEADER % "muduo/base/LogFile.{h,cc}, FileUtil.cc, AsyncLogging.{h,cc}, LogStream.h",
+    out = [HEADER % "muduo/base/LogFile.{h,cc}, FileUtil.cc, LogStream.h",
            "namespace MuduoVerif.Gen.LogFile\n"]
 
     # ------------------------------------------------------------------ LogFile
@@ -218,107 +217,5 @@ def generate():
     out.append(nat_prop("fixedAppendFits", ["avail", "len"], guards.pop(),
                         "`FixedBuffer::append`: the bytes are copied iff (otherwise the call does nothing)"))
 
-    # ------------------------------------------------------------------ AsyncLogging
-    al = ast_dump("muduo/base/AsyncLogging.cc", "muduo::AsyncLogging")
-    size = None
-    for d in al:
-        for n in walk(d):
-            if n.get("kind") == "TypedefDecl" and n.get("name") == "Buffer":
-                m = re.search(r"FixedBuffer<(\d+)>", desugared(n))
-                if m:
-                    size = int(m.group(1))
-    if size is None:
-        raise ExtractError("AsyncLogging::Buffer is no longer a FixedBuffer<N>")
-    out.append("/-- `AsyncLogging::Buffer` is `FixedBuffer<asyncBufferSize>` -/\ndef asyncBufferSize : Nat := %d\n" % size)
-
-    fa = the_function(al, "append")
-    t = Tr({"currentBuffer_.avail()": "avail", "len": "len"})
-    fits = one_if(fa, "AsyncLogging::append", "len")
-    out.append(nat_prop("frontFits", ["avail", "len"], unparen(t.expr(if_cond(fits))),
-                        "`AsyncLogging::append`: the record goes into the current buffer iff"))
-    if len(kids(fits)) != 3:
-        raise ExtractError("AsyncLogging::append: the space test lost a branch")
-    if not calls_named(kids(fits)[1], "append") or calls_named(kids(fits)[1], "push_back"):
-        raise ExtractError("AsyncLogging::append: the then-branch is no longer a plain append")
-    els = kids(fits)[2]
-    for need in ("push_back", "append"):
-        if not calls_named(els, need):
-            raise ExtractError("AsyncLogging::append: the buffer switch no longer calls %s()" % need)
-    out.append("/-- `AsyncLogging::append`: the buffer switch signals the back-end -/\ndef frontNotifies : Bool := %s\n"
-               % ("true" if calls_named(els, "notify") else "false"))
-
-    tf = the_function(al, "threadFunc")
-    loops = [n for n in kids(body_of(tf)) if n.get("kind") == "WhileStmt"]
-    if len(loops) != 1 or not mentions(kids(loops[0])[0], "running_"):
-        raise ExtractError("threadFunc: expected one top-level `while (running_)`")
-    loop = loops[0]
-    lbody = kids(loop)[1]
-    t = Tr({"buffers_.empty()": "(queued = 0)"})
-    waits = [i for i in find_ifs(tf) if mentions(if_cond(i), "buffers_") and calls_named(kids(i)[1], "waitForSeconds")]
-    if len(waits) != 1:
-        raise ExtractError("threadFunc: expected one `if (buffers_.empty())` guarding the timed wait")
-    out.append(nat_prop("backWaits", ["queued"], unparen(t.expr(if_cond(waits[0]))),
-                        "`AsyncLogging::threadFunc`: the back-end waits (timed) iff"))
-    t = Tr({"buffersToWrite.size()": "n"})
-    valve = [i for i in find_ifs(tf) if mentions(if_cond(i), "buffersToWrite") and calls_named(kids(i)[1], "erase")]
-    if len(valve) != 1:
-        raise ExtractError("threadFunc: expected one overload valve (`if` guarding erase)")
-    out.append(nat_prop("overloaded", ["n"], unparen(t.expr(if_cond(valve[0]))),
-                        "`AsyncLogging::threadFunc`: the overload valve opens iff"))
-    for need in ("fputs", "append"):
-        if not calls_named(kids(valve[0])[1], need):
-            raise ExtractError("threadFunc: the overload valve no longer announces the drop (%s)" % need)
-    # the count the announcement prints: last argument of snprintf
-    sn = calls_named(kids(valve[0])[1], "snprintf")
-    if len(sn) != 1:
-        raise ExtractError("threadFunc: the overload valve no longer formats its announcement with one snprintf")
-    out.append("/-- `AsyncLogging::threadFunc`: the number of buffers the announcement reports -/\n"
-               "def dropAnnounce (n : Nat) : Nat := %s\n" % unparen(t.expr(kids(sn[0])[-1])))
-    er = calls_named(kids(valve[0])[1], "erase")
-    if len(er) != 1 or len(kids(er[0])) != 3:
-        raise ExtractError("threadFunc: unexpected erase() call")
-
-    def iter_pos(n):
-        """begin()+k -> k ; end() -> 'end'"""
-        n = strip(n)
-        while n.get("kind") in ("CXXConstructExpr", "MaterializeTemporaryExpr", "ImplicitCastExpr", "CXXBindTemporaryExpr") and kids(n):
-            n = strip(kids(n)[0])
-        if n.get("kind") == "CXXMemberCallExpr" and callee_name(n) == "end" and mentions(n, "buffersToWrite"):
-            return "end"
-        if n.get("kind") == "CXXMemberCallExpr" and callee_name(n) == "begin" and mentions(n, "buffersToWrite"):
-            return 0
-        if n.get("kind") == "CXXOperatorCallExpr":
-            ks = kids(n)
-            op = strip(ks[0])
-            if op.get("kind") == "DeclRefExpr" and op["referencedDecl"]["name"] == "operator+" and len(ks) == 3:
-                base = iter_pos(ks[1])
-                k = strip(ks[2])
-                if base == 0 and k.get("kind") == "IntegerLiteral":
-                    return int(k["value"])
-        raise ExtractError("threadFunc: erase() range is not begin()+k .. end()")
-    lo, hi = iter_pos(kids(er[0])[1]), iter_pos(kids(er[0])[2])
-    if hi != "end" or lo == "end":
-        raise ExtractError("threadFunc: erase() range is not begin()+k .. end()")
-    out.append("/-- `AsyncLogging::threadFunc`: the valve erases `begin()+dropKeep .. end()` -/\ndef dropKeep : Nat := %d\n" % lo)
-    # order inside the loop: valve before the write loop
-    fors = [n for n in walk(lbody) if n.get("kind") == "CXXForRangeStmt"]
-    if len(fors) != 1 or not calls_named(fors[0], "append"):
-        raise ExtractError("threadFunc: expected one range-for writing the buffers inside the loop")
-    order = [id(n) for n in walk(lbody)]
-    if order.index(id(valve[0])) > order.index(id(fors[0])):
-        raise ExtractError("threadFunc: the overload valve no longer precedes the write loop")
-    flushes = [n for n in kids(lbody) if n.get("kind") == "CXXMemberCallExpr" and callee_name(n) == "flush"]
-    out.append("/-- `AsyncLogging::threadFunc`: every cycle ends with `output.flush()` -/\ndef cycleFlushes : Bool := %s\n"
-               % ("true" if flushes and order.index(id(flushes[-1])) > order.index(id(fors[0])) else "false"))
-    # what follows the loop: the final collect (push_back of the current buffer, swap) + a write loop + flush
-    after = kids(body_of(tf))
-    after = after[after.index(loop) + 1:]
-    collect = any(calls_named(s, "push_back") and calls_named(s, "swap") and mentions(s, "currentBuffer_") for s in after)
-    writes = any(s.get("kind") == "CXXForRangeStmt" and calls_named(s, "append") for s in after)
-    out.append("/-- `AsyncLogging::threadFunc`: after `while (running_)` the front-end buffers are collected and written once more -/\n"
-               "def finalCollect : Bool := %s\n" % ("true" if collect and writes else "false"))
-    fl = [s for s in after if s.get("kind") == "CXXMemberCallExpr" and callee_name(s) == "flush"]
-    out.append("/-- `AsyncLogging::threadFunc`: ... followed by `output.flush()` -/\ndef finalFlush : Bool := %s\n"
-               % ("true" if fl else "false"))
     out.append("end MuduoVerif.Gen.LogFile\n")
     return "\n".join(out)
